@@ -494,6 +494,17 @@ def kids(n):
     return [c for c in n.get("inner", ()) if isinstance(c, dict)]
 
 
+def _as_bool01(v):
+    if not isinstance(v, z3.ExprRef):
+        return None
+    if z3.is_bool(v):
+        return v
+    if z3.is_app(v) and v.decl().kind() == z3.Z3_OP_ITE and z3.is_int_value(v.arg(1)) and z3.is_int_value(v.arg(2)) \
+            and v.arg(1).as_long() == 1 and v.arg(2).as_long() == 0:
+        return v.arg(0)
+    return None
+
+
 class Interp:
     def __init__(self, kernel, ctx):
         self.k = kernel
@@ -1236,6 +1247,12 @@ class Interp:
             if h is not None:
                 return h(self, op, rv)
             raise Gap("binary %s on %r, %r (line %s)" % (op, lv, rv, extract.line_of(n)))
+        if op in ("&", "|", "^"):
+            # operands that are bools promoted to int 0/1: the 0/1 result is the logical connective
+            bl, br = _as_bool01(lv), _as_bool01(rv)
+            if bl is not None and br is not None:
+                r = {"&": z3.And, "|": z3.Or, "^": z3.Xor}[op](bl, br)
+                return r if (z3.is_bool(lv) and z3.is_bool(rv)) else z3.If(r, z3.IntVal(1), z3.IntVal(0))
         if z3.is_bool(lv) and z3.is_int(rv):
             lv = z3.If(lv, z3.IntVal(1), z3.IntVal(0))
         if z3.is_bool(rv) and z3.is_int(lv):
@@ -1306,7 +1323,10 @@ class Interp:
         rv = ctx.rv(self.expr(b))
         if not isinstance(loc, Loc):
             raise Gap("compound assignment to non-location")
-        new = self.binop(op, ctx.load(loc), rv, n)
+        cur = ctx.load(loc)
+        new = self.binop(op, cur, rv, n)
+        if isinstance(cur, z3.ExprRef) and z3.is_bool(cur) and isinstance(new, z3.ExprRef) and z3.is_int(new):
+            new = new != 0      # the implicit conversion back to the bool lvalue
         ctx.write(loc, new)
         return loc
 
